@@ -44,6 +44,11 @@ PROBLEMS = {
     "feas":    dict(n=1, x0=[0.5], bounds=None, nl=[(1, [-INF], [0.0], "nlc")], fun=False),
     "feaslin": dict(n=1, x0=[0.5], bounds=None, lin=[([[1.0]], [-INF], [0.0])], fun=False),
     "dict":    dict(n=1, x0=[0.5], bounds=None, nl=[(1, [0.0], [INF], "dict-ineq")]),
+    "narrow":  dict(n=1, x0=[0.1], bounds=[[0.0, 0.5]]),
+    "contra":  dict(n=1, x0=[0.5], bounds=None, lin=[([[1.0]], [-INF], [0.0]), ([[1.0]], [1.0], [INF]), ([[2.0]], [-INF], [0.0])]),
+    "infeasnl": dict(n=1, x0=[0.5], bounds=[[1.0, 0.0]], nl=[(1, [-INF], [0.0], "nlc")]),
+    "allfixnl": dict(n=2, x0=[0.0, 0.0], bounds=[[1.0, 1.0], [2.0, 2.0]], nl=[(2, [-INF, 0.0], [0.0, 0.0], "nlc")],
+                     lin=[([[1.0, -1.0]], [0.0], [0.0])]),
     "dict2":   dict(n=1, x0=[0.5], bounds=None, nl=[(1, [0.0], [INF], "dict-ineq"), (1, [0.0], [0.0], "dict-eq")]),
     "fixnls":  dict(n=2, x0=[0.5, 7.0], bounds=[[0.0, 2.0], [1.0, 1.0]], nl=[(1, [-INF], [0.0], "nlc")], scale=True),
     "boxnls":  dict(n=1, x0=[0.5], bounds=[[0.0, 4.0]], nl=[(1, [-INF], [0.0], "nlc")], scale=True),
@@ -179,6 +184,10 @@ class Ctl(Harness):
             add("feas", 3, 1, cb="pos", npt=2)
             add("dict", 2, 1, npt=2, cb="kw")
             add("dict2", 2, 1, npt=2, con_const=0.5)
+            add("narrow", 4, 2, cb="pos", hist=1)
+            add("contra", 3, 1, cb="kw")
+            add("infeasnl", 3, 1, cb="pos", kinds="all")
+            add("allfixnl", 3, 1, cb="kw", kinds="all")
             add("fixnls", 2, 1, cb="kw", npt=2)
             add("nlub", 2, 1, npt=2)
             add("linnl", 2, 1, npt=2)
